@@ -10,8 +10,9 @@ Shape of the model
     a `$ref` wrapper (`*Ref` types) is a node of its own whose only kid sits at position "value"
     (absent when the reference is unresolved); map keys / template strings are kept in the kid's
     attribute "key";
-  * `descend lok act` is the recursive descent: local rules of the node, then every kid whose position is
-    *active*.  For the code, `act` is read off the REGENERATED table `Gen.descent` (which child `Validate`
+  * `descend lok act` is the recursive descent: the verdicts of all kids are computed first, then the local
+    rules of the node (which may look at those verdicts: `Encoding.Validate` answers nil as soon as one of
+    its headers fails) and the verdict of every kid whose position is *active*.  For the code, `act` is read off the REGENERATED table `Gen.descent` (which child `Validate`
     calls a method makes, under which option flags) and `lok` is `localOK`, a hand-written transcription
     of the local checks of each method in the code's order, whose calls to `validateExtensions`,
     `ValidateIdentifier`, `VisitJSON(default)` and `validateExampleValue` are again looked up in the table;
@@ -20,11 +21,15 @@ Shape of the model
 
 Ties to the code
   * table `Gen.descent` (regenerated): edges, `validateExtensions` / `ValidateIdentifier` / `VisitJSON(default)` /
-    `validateExampleValue` calls and their option guards — consumed by `active`, `hasCheck`, `checkExt`;
-  * table `Gen.paramStyles` / `Gen.paramStyleDefaults` (regenerated): compared with `smSupported` / `smOf`
-    (the OpenAPI 3.0 style table) by `decide` in Props/C04.lean;
-  * everything hand-transcribed (the order and content of the local checks, `structGuard`) is validated by
-    the differential run against `(*openapi3.T).Validate`.
+    `validateExampleValue` calls, their option guards and what the caller does with the callee's error
+    (returned, or dropped by `return nil`) — consumed by `active`, `hasCheck`, `hasSwallow`, `checkExt`;
+  * table `Gen.paramStyles` / `Gen.paramStyleDefaults` / `Gen.headerStyles` / `Gen.encodingStyles` (regenerated):
+    compared with `smSupported` / `smOf` / `encSmOf` (the OpenAPI 3.0 style table) by `decide` in Props/C04.lean;
+  * the structural conditions that dominate a call (`if schema != nil { … }`, the else branch of
+    `if example != nil`, accepting early returns) are part of the table as well ("@…" literals): the ones that
+    only test the call's own operand are dropped (`benign`), the others are read against the node's attributes;
+  * everything hand-transcribed (the order and content of the local checks) is validated by the differential
+    run against `(*openapi3.T).Validate`.
 
 What is abstracted
   * `VisitJSON` of a default / example value is modelled on the fragment "scalar value against a schema
@@ -88,14 +93,27 @@ structure Opts where
 /-! ## The generic descent and its characterisation -/
 
 abbrev Act := Kind → Attrs → String → Bool
+/-- local rules of a node, given the verdicts of its kids (a list parallel to `kids`) -/
+abbrev Lok := Doc → List Bool → Bool
+
+/-- every kid at an active position passed -/
+def kidsPass (act : Act) (k : Kind) (a : Attrs) : List (String × Doc) → List Bool → Bool
+  | (pos, _) :: r, v :: vs => (if act k a pos then v else true) && kidsPass act k a r vs
+  | _, _ => true
+
+def nodePass (lok : Lok) (act : Act) (k : Kind) (a : Attrs) (kids : List (String × Doc)) (vs : List Bool) : Bool :=
+  lok (.node k a kids) vs && kidsPass act k a kids vs
 
 mutual
-def descend (lok : Doc → Bool) (act : Act) : Doc → Bool
-  | .node k a kids => lok (.node k a kids) && descendKids lok act k a kids
-def descendKids (lok : Doc → Bool) (act : Act) (k : Kind) (a : Attrs) : List (String × Doc) → Bool
-  | [] => true
-  | (pos, c) :: r => (if act k a pos then descend lok act c else true) && descendKids lok act k a r
+def descend (lok : Lok) (act : Act) : Doc → Bool
+  | .node k a kids => nodePass lok act k a kids (verdicts lok act kids)
+def verdicts (lok : Lok) (act : Act) : List (String × Doc) → List Bool
+  | [] => []
+  | (_, c) :: r => descend lok act c :: verdicts lok act r
 end
+
+/-- the local rules of a node, fed with the verdicts of its own kids -/
+def lokV (lok : Lok) (act : Act) (d : Doc) : Bool := lok d (verdicts lok act d.kids)
 
 /-- `Reach act d n`: node `n` is reached from `d` through active positions only -/
 inductive Reach (act : Act) : Doc → Doc → Prop
@@ -104,50 +122,70 @@ inductive Reach (act : Act) : Doc → Doc → Prop
       Reach act (.node k a kids) d
 
 mutual
-theorem descend_sound (lok : Doc → Bool) (act : Act) :
-    ∀ (d : Doc), descend lok act d = true → ∀ n, Reach act d n → lok n = true
+theorem descend_sound (lok : Lok) (act : Act) :
+    ∀ (d : Doc), descend lok act d = true → ∀ n, Reach act d n → lokV lok act n = true
   | .node k a kids, h, n, hr => by
-    simp only [descend, Bool.and_eq_true] at h
+    simp only [descend, nodePass, Bool.and_eq_true] at h
     cases hr with
     | self => exact h.1
-    | step hm he hr' => exact descendKids_sound lok act k a kids h.2 _ _ hm he n hr'
-theorem descendKids_sound (lok : Doc → Bool) (act : Act) (k : Kind) (a : Attrs) :
-    ∀ (kids : List (String × Doc)), descendKids lok act k a kids = true →
-    ∀ pos c, (pos, c) ∈ kids → act k a pos = true → ∀ n, Reach act c n → lok n = true
+    | step hm he hr' => exact verdicts_sound lok act k a kids h.2 _ _ hm he n hr'
+theorem verdicts_sound (lok : Lok) (act : Act) (k : Kind) (a : Attrs) :
+    ∀ (kids : List (String × Doc)), kidsPass act k a kids (verdicts lok act kids) = true →
+    ∀ pos c, (pos, c) ∈ kids → act k a pos = true → ∀ n, Reach act c n → lokV lok act n = true
   | [], _, _, _, hm, _, _, _ => by simp at hm
   | (p, d) :: r, h, pos, c, hm, he, n, hr => by
-    simp only [descendKids, Bool.and_eq_true] at h
+    simp only [verdicts, kidsPass, Bool.and_eq_true] at h
     simp only [List.mem_cons, Prod.mk.injEq] at hm
     rcases hm with ⟨rfl, rfl⟩ | hm
     · simp only [he, if_true] at h
       exact descend_sound lok act c h.1 n hr
-    · exact descendKids_sound lok act k a r h.2 pos c hm he n hr
+    · exact verdicts_sound lok act k a r h.2 pos c hm he n hr
 end
 
 mutual
-theorem descend_complete (lok : Doc → Bool) (act : Act) :
-    ∀ (d : Doc), (∀ n, Reach act d n → lok n = true) → descend lok act d = true
+theorem descend_complete (lok : Lok) (act : Act) :
+    ∀ (d : Doc), (∀ n, Reach act d n → lokV lok act n = true) → descend lok act d = true
   | .node k a kids, h => by
-    simp only [descend, Bool.and_eq_true]
-    exact ⟨h _ .self, descendKids_complete lok act k a kids (fun pos c hm he n hr => h n (.step hm he hr))⟩
-theorem descendKids_complete (lok : Doc → Bool) (act : Act) (k : Kind) (a : Attrs) :
+    simp only [descend, nodePass, Bool.and_eq_true]
+    exact ⟨h _ .self, verdicts_complete lok act k a kids (fun pos c hm he n hr => h n (.step hm he hr))⟩
+theorem verdicts_complete (lok : Lok) (act : Act) (k : Kind) (a : Attrs) :
     ∀ (kids : List (String × Doc)),
-    (∀ pos c, (pos, c) ∈ kids → act k a pos = true → ∀ n, Reach act c n → lok n = true) →
-    descendKids lok act k a kids = true
+    (∀ pos c, (pos, c) ∈ kids → act k a pos = true → ∀ n, Reach act c n → lokV lok act n = true) →
+    kidsPass act k a kids (verdicts lok act kids) = true
   | [], _ => rfl
   | (p, d) :: r, h => by
-    simp only [descendKids, Bool.and_eq_true]
-    refine ⟨?_, descendKids_complete lok act k a r (fun pos c hm he => h pos c (by simp [hm]) he)⟩
+    simp only [verdicts, kidsPass, Bool.and_eq_true]
+    refine ⟨?_, verdicts_complete lok act k a r (fun pos c hm he => h pos c (by simp [hm]) he)⟩
     split
     · rename_i hc
       exact descend_complete lok act d (h p d (by simp) hc)
     · rfl
 end
 
-/-- the descent accepts exactly when every node reached through active positions is locally fine -/
-theorem descend_iff (lok : Doc → Bool) (act : Act) (d : Doc) :
-    descend lok act d = true ↔ ∀ n, Reach act d n → lok n = true :=
+/-- the descent accepts exactly when every node reached through active positions is locally fine (its
+local rules being fed with the verdicts of its own kids) -/
+theorem descend_iff (lok : Lok) (act : Act) (d : Doc) :
+    descend lok act d = true ↔ ∀ n, Reach act d n → lokV lok act n = true :=
   ⟨descend_sound lok act d, descend_complete lok act d⟩
+
+/-- the verdict of a kid, read off the verdict list of its parent -/
+theorem verdicts_zip (lok : Lok) (act : Act) :
+    ∀ (kids : List (String × Doc)) (pc : String × Doc) (v : Bool), (pc, v) ∈ kids.zip (verdicts lok act kids) →
+      v = descend lok act pc.2
+  | [], _, _, h => by simp at h
+  | (p, d) :: r, pc, v, h => by
+    simp only [verdicts, List.zip_cons_cons, List.mem_cons, Prod.mk.injEq] at h
+    rcases h with ⟨rfl, rfl⟩ | h
+    · rfl
+    · exact verdicts_zip lok act r pc v h
+
+/-- local rules that do not look at the verdicts of the kids -/
+def plain (f : Doc → Bool) : Lok := fun d _ => f d
+
+theorem lokV_plain (f : Doc → Bool) (act : Act) (d : Doc) : lokV (plain f) act d = f d := rfl
+
+theorem descend_plain_iff (f : Doc → Bool) (act : Act) (d : Doc) :
+    descend (plain f) act d = true ↔ ∀ n, Reach act d n → f n = true := descend_iff _ _ d
 
 theorem Reach.mono {act act' : Act} (h : ∀ k a p, act k a p = true → act' k a p = true) {d n : Doc}
     (hr : Reach act d n) : Reach act' d n := by
@@ -157,10 +195,19 @@ theorem Reach.mono {act act' : Act} (h : ∀ k a p, act k a p = true → act' k 
 
 /-! ## The regenerated table and its interpretation -/
 
+def isPrefix : List Char → List Char → Bool
+  | [], _ => true
+  | _ :: _, [] => false
+  | a :: as, b :: bs => a = b && isPrefix as bs
+def isInfix (p : List Char) : List Char → Bool
+  | [] => p.isEmpty
+  | c :: cs => isPrefix p (c :: cs) || isInfix p cs
+
 /-- one interpreted fact of the table -/
 inductive Item
   | edge (k : Kind) (pos : String) (guards : List String)
   | check (k : Kind) (name : String) (guards : List String)
+  | swallow (k : Kind) (name : String) (guards : List String)   -- a child call / check whose error ends in `return nil`
   | skip                                       -- a recognised row that carries no edge (identity steps)
   deriving DecidableEq, Repr
 
@@ -203,8 +250,10 @@ def posOfVia : String → Option String
   | "parameter.Content" => some "content" | "parameter.Schema" => some "schema"
   | "parameter.Examples[]" => some "examples"
   | "header.Schema" => some "schema" | "header.Content" => some "content"
+  | "header.Examples[]" => some "examples"
   | "content[]" => some "mediaTypes"
   | "mediaType.Schema" => some "schema" | "mediaType.Examples[]" => some "examples"
+  | "mediaType.Encoding[]" => some "encoding"
   | "requestBody.Content" => some "content"
   | "responses.Value()" => some "responses"
   | "response.Content" => some "content" | "response.Headers[]" => some "headers"
@@ -241,21 +290,46 @@ def exampleCheckOfVia : String → Option String
   | "mediaType.Schema.Value @ mediaType.Examples[].Value.Value" => some "examples"
   | "parameter.Schema.Value @ parameter.Example" => some "example"
   | "parameter.Schema.Value @ parameter.Examples[].Value.Value" => some "examples"
+  | "header.Schema.Value @ header.Example" => some "example"
+  | "header.Schema.Value @ header.Examples[].Value.Value" => some "examples"
   | "schema @ schema.Example" => some "example"
   | _ => none
 
+/-- a structural literal of the table ("@…") that only tests the call's own operand, and therefore holds
+whenever the corresponding kid / value exists in the model tree: `@nonnil:P` where `P` is part of the
+operand path of the call (`header.Schema` for `header.Schema.Validate`, the receiver `mediaType` for everything
+in `MediaType.Validate`, `x.Value` in the reference wrappers). Two more are dropped for a stated reason:
+`@not:cond:existing == schema` (the cycle guard of `Schema.validate`: model trees are acyclic) and
+`@cond:hasFlow` (`SecurityScheme.Validate` visits `flows` for type oauth2 only; for any other type the presence
+of `flows` is rejected by the local check, so the verdict is the same). -/
+def benign (via : String) (g : String) : Bool :=
+  g = "@not:cond:existing == schema" || g = "@cond:hasFlow" ||
+  (isPrefix "@nonnil:".toList g.toList && isInfix (g.toList.drop 8) via.toList)
+
+/-- the literals the model can read: option flags, and the structural conditions on `schema` / `example` -/
 def knownGuard : String → Bool
   | "+examplesValidationDisabled" | "-examplesValidationDisabled"
-  | "+schemaDefaultsValidationDisabled" | "-schemaDefaultsValidationDisabled" => true
+  | "+schemaDefaultsValidationDisabled" | "-schemaDefaultsValidationDisabled"
+  | "@nonnil:parameter.Schema" | "@nonnil:mediaType.Schema" | "@nonnil:header.Schema"
+  | "@isnil:parameter.Schema" | "@isnil:mediaType.Schema" | "@isnil:header.Schema"
+  | "@nonnil:parameter.Example" | "@isnil:parameter.Example" => true
   | _ => false
 
 open KinModel.Gen in
-def interp (r : DescentRow) : Option (List Item) :=
+def interp (r0 : DescentRow) : Option (List Item) :=
+  let r : DescentRow := { r0 with guards := r0.guards.filter (fun g => !benign r0.via g) }
   if !(r.guards.all knownGuard) then none else
   match kindOfGo r.src with
   | none => none
   | some k =>
-    if r.dst = "<validateExtensions>" then some [.check k "extensions" r.guards]
+    if r.onErr = "swallow" then
+      -- the error of the callee is dropped (`return nil`): neither an edge nor a check of the descent
+      (if r.dst = "<ValidateIdentifier>" then (identPosOfVia r.via).map (fun p => [.swallow k ("identifier:" ++ p) r.guards])
+       else match kindOfGo r.dst, posOfVia r.via with
+         | some _, some p => some [.swallow k p r.guards]
+         | _, _ => none)
+    else if r.onErr != "propagate" then none
+    else if r.dst = "<validateExtensions>" then some [.check k "extensions" r.guards]
     else if r.dst = "<ValidateIdentifier>" then (identPosOfVia r.via).map (fun p => [.check k ("identifier:" ++ p) r.guards])
     else if r.dst = "<validateExampleValue>" then (exampleCheckOfVia r.via).map (fun n => [.check k n r.guards])
     else if r.dst = "<VisitJSON>" then
@@ -271,41 +345,56 @@ def interp (r : DescentRow) : Option (List Item) :=
 structure Table where
   edges  : List (Kind × String × List String)
   checks : List (Kind × String × List String)
+  swallows : List (Kind × String × List String)
   deriving DecidableEq, Repr
 
 def itemsOf (rows : List Gen.DescentRow) : List Item := (rows.filterMap interp).flatten
 
 def tableOf (rows : List Gen.DescentRow) : Table :=
   { edges := (itemsOf rows).filterMap (fun | .edge k p g => some (k, p, g) | _ => none),
-    checks := (itemsOf rows).filterMap (fun | .check k n g => some (k, n, g) | _ => none) }
+    checks := (itemsOf rows).filterMap (fun | .check k n g => some (k, n, g) | _ => none),
+    swallows := (itemsOf rows).filterMap (fun | .swallow k n g => some (k, n, g) | _ => none) }
 
 /-- the table of the code under test -/
 def codeTable : Table := tableOf Gen.descent
 
-def litHolds (o : Opts) : String → Bool
+def litHolds (o : Opts) (a : Attrs) : String → Bool
   | "+examplesValidationDisabled" => o.exDisabled
   | "-examplesValidationDisabled" => !o.exDisabled
   | "+schemaDefaultsValidationDisabled" => o.defDisabled
   | "-schemaDefaultsValidationDisabled" => !o.defDisabled
+  | "@nonnil:parameter.Schema" | "@nonnil:mediaType.Schema" | "@nonnil:header.Schema" => a.flag "hasSchema"
+  | "@isnil:parameter.Schema" | "@isnil:mediaType.Schema" | "@isnil:header.Schema" => !a.flag "hasSchema"
+  | "@nonnil:parameter.Example" => a.flag "hasExample"
+  | "@isnil:parameter.Example" => !a.flag "hasExample"
   | _ => false
-def guardsHold (o : Opts) (gs : List String) : Bool := gs.all (litHolds o)
+def guardsHold (o : Opts) (a : Attrs) (gs : List String) : Bool := gs.all (litHolds o a)
 
 /-- guard lists of all rows of the table for (kind, name) -/
 def rowsFor (l : List (Kind × String × List String)) (k : Kind) (n : String) : List (List String) :=
   (l.filter (fun e => e.1 = k && e.2.1 = n)).map (·.2.2)
 
-/-- some row for (kind, name) has all its option guards satisfied -/
-def anyHolds (o : Opts) (gss : List (List String)) : Bool := gss.any (guardsHold o)
+/-- some row for (kind, name) has all its guards satisfied (option flags, structural conditions on the node) -/
+def anyHolds (o : Opts) (a : Attrs) (gss : List (List String)) : Bool := gss.any (guardsHold o a)
 
-/-- structural guards of edges that the table does not carry (hand-modelled; validated by the
-differential run): the `examples` of a parameter / media type are visited only when a schema is given -/
-def structGuard (k : Kind) (a : Attrs) (pos : String) : Bool :=
-  if (k = .parameter || k = .mediaType) && pos = "examples" then a.flag "hasSchema" else true
+/-- the four facts a literal can read: the two option flags, whether the node has a schema, an example -/
+def mkO (e d : Bool) : Opts := { exDisabled := e, defDisabled := d }
+def mkA (s x : Bool) : Attrs := { flags := (if s then ["hasSchema"] else []) ++ (if x then ["hasExample"] else []) }
 
-def active (T : Table) (o : Opts) : Act := fun k a pos =>
-  anyHolds o (rowsFor T.edges k pos) && structGuard k a pos
+/-- the rows hold exactly when `f` says so, decided over the sixteen valuations of the four facts -/
+def holdsAs (gss : List (List String)) (f : Bool → Bool → Bool → Bool → Bool) : Bool :=
+  [false, true].all fun e => [false, true].all fun d => [false, true].all fun s => [false, true].all fun x =>
+    anyHolds (mkO e d) (mkA s x) gss == f e d s x
 
-def hasCheck (T : Table) (o : Opts) (k : Kind) (n : String) : Bool := anyHolds o (rowsFor T.checks k n)
+/-- under every option set and whatever the node has, some row has all its guards satisfied -/
+def alwaysHolds (gss : List (List String)) : Bool := holdsAs gss (fun _ _ _ _ => true)
+
+def active (T : Table) (o : Opts) : Act := fun k a pos => anyHolds o a (rowsFor T.edges k pos)
+
+def hasCheck (T : Table) (o : Opts) (a : Attrs) (k : Kind) (n : String) : Bool := anyHolds o a (rowsFor T.checks k n)
+
+/-- the method makes this child call / check but answers nil when it fails -/
+def hasSwallow (T : Table) (o : Opts) (a : Attrs) (k : Kind) (n : String) : Bool := anyHolds o a (rowsFor T.swallows k n)
 
 /-! ## Small string functions (on `List Char`, so that `decide` can evaluate witnesses) -/
 
@@ -317,14 +406,6 @@ def identChar (c : Char) : Bool :=
 def identOK (s : String) : Bool := !s.toList.isEmpty && s.toList.all identChar
 
 def countChar (c : Char) (s : List Char) : Nat := (s.filter (· = c)).length
-
-def isPrefix : List Char → List Char → Bool
-  | [], _ => true
-  | _ :: _, [] => false
-  | a :: as, b :: bs => a = b && isPrefix as bs
-def isInfix (p : List Char) : List Char → Bool
-  | [] => p.isEmpty
-  | c :: cs => isPrefix p (c :: cs) || isInfix p cs
 
 /-- state of `normalizeTemplatedPath`'s loop: (template so far reversed, last appended char,
 inside a variable, variable so far reversed, variables, count) -/
@@ -381,19 +462,32 @@ def schemaAttrsAt (d : Doc) : Option Attrs :=
   | r :: _ => (match r.kidsAt "value" with | s :: _ => some s.attrs | [] => none)
   | [] => none
 
-/-- values of the `examples` map of a parameter / media type, through the example references, as the code
-reads them (`v.Value.Value`): an example object without `value` (e.g. one that gives `externalValue`)
-yields `nil` -/
+/-- the example objects of the `examples` map of a parameter / media type / header, through resolved
+example references (`v.Value`) -/
+def exampleEntries (d : Doc) : List Attrs :=
+  if !d.attrs.flag "hasExamples" then [] else          -- `Examples == nil`: nothing to range over
+  (d.kidsAt "examples").filterMap (fun r =>
+    if r.kind = .exampleRef then
+      (match r.kidsAt "value" with
+       | e :: _ => if e.kind = .example then some e.attrs else none
+       | [] => none)
+    else none)
+
+/-- the example object gives a `value` -/
+def hasVal (a : Attrs) : Bool := (a.vals.lookup "value").isSome
+
+/-- values of the `examples` map as the code reads them: an entry that gives `externalValue` is skipped
+(`continue`), otherwise `v.Value.Value` is read (`nil` when there is no `value`) -/
 def examplesVals (d : Doc) : List Val :=
-  (d.kidsAt "examples").map (fun r => match r.kidsAt "value" with
-    | e :: _ => ((e.attrs.vals.lookup "value").getD .null)
-    | [] => .null)
+  (exampleEntries d).filterMap (fun a =>
+    if a.str "externalValue" != "" then none else some ((a.vals.lookup "value").getD .null))
 
 /-- the values the examples actually give (specification side) -/
 def examplesValsGiven (d : Doc) : List Val :=
-  (d.kidsAt "examples").flatMap (fun r => match r.kidsAt "value" with
-    | e :: _ => (match e.attrs.vals.lookup "value" with | some v => [v] | none => [])
-    | [] => [])
+  (exampleEntries d).filterMap (fun a => a.vals.lookup "value")
+
+/-- an example object gives exactly one of `value` and `externalValue` -/
+def exampleShapeOK (a : Attrs) : Bool := hasVal a != (a.str "externalValue" != "")
 
 def valOK (sa : Option Attrs) (v : Val) : Bool :=
   match sa with | some a => accepts a v != .no | none => true
@@ -402,7 +496,7 @@ def valOK (sa : Option Attrs) (v : Val) : Bool :=
 def valsUnmodelled (d : Doc) : Bool :=
   match d.kind with
   | .schema => (d.attrs.vals.filter (fun kv => kv.1 = "default" || kv.1 = "example")).any (fun kv => accepts d.attrs kv.2 = .unmodelled)
-  | .parameter | .mediaType =>
+  | .parameter | .mediaType | .header =>
     (match schemaAttrsAt d with
      | some a => ((d.attrs.vals.filter (·.1 = "example")).map (·.2) ++ examplesVals d).any (fun v => accepts a v = .unmodelled)
      | none => false)
@@ -414,7 +508,7 @@ def extKeysOK (o : Opts) (exts : List String) : Bool := exts.all (fun k => isExt
 
 /-- `validateExtensions(ctx, x.Extensions)` if the method calls it (table) under guards that hold -/
 def checkExt (T : Table) (o : Opts) (d : Doc) : Bool :=
-  if hasCheck T o d.kind "extensions" then extKeysOK o d.attrs.exts else true
+  if hasCheck T o d.attrs d.kind "extensions" then extKeysOK o d.attrs.exts else true
 
 /-- `*Ref.Validate`: sibling keys of `$ref`, then resolved -/
 def refSibsOK (o : Opts) (a : Attrs) : Bool :=
@@ -478,8 +572,8 @@ def examplesGivenOK (d : Doc) : Bool := (examplesValsGiven d).all (valOK (schema
 
 /-- example / examples of a parameter or media type against `schema.Value` -/
 def exampleValuesOK (T : Table) (o : Opts) (d : Doc) : Bool :=
-  (if hasCheck T o d.kind "example" then exampleOK d else true) &&
-  (if hasCheck T o d.kind "examples" then examplesOK d else true)
+  (if hasCheck T o d.attrs d.kind "example" then exampleOK d else true) &&
+  (if hasCheck T o d.attrs d.kind "examples" then examplesOK d else true)
 
 def parameterOKCode (T : Table) (o : Opts) (d : Doc) : Bool :=
   let a := d.attrs
@@ -500,6 +594,8 @@ def headerOKCode (T : Table) (o : Opts) (d : Doc) : Bool :=
   else if a.str "in" != "" then false
   else if !((a.str "style" = "" || a.str "style" = "simple")) then false
   else if schemaXorContentBad a then false
+  else if a.flag "hasSchema" && a.flag "hasExample" && a.flag "hasExamples" then false
+  else if a.flag "hasSchema" && !exampleValuesOK T o d then false
   else if a.num "content" > 1 then false
   else checkExt T o d
 
@@ -508,6 +604,26 @@ def mediaTypeOKCode (T : Table) (o : Opts) (d : Doc) : Bool :=
   if a.flag "hasSchema" then
     if a.flag "hasExample" && a.flag "hasExamples" then false
     else exampleValuesOK T o d && checkExt T o d
+  else checkExt T o d
+
+/-- `Encoding.SerializationMethod` defaults: `form`, explode -/
+def encSmOf (a : Attrs) : String × Bool :=
+  (if a.str "style" = "" then "form" else a.str "style",
+   if a.str "explode" = "false" then false else true)
+
+/-- the style / explode combinations `Encoding.Validate` supports: those of a query parameter -/
+def encodingStyleOK (a : Attrs) : Bool := smSupported "query" (encSmOf a).1 (encSmOf a).2
+
+/-- `Encoding.Validate`, loop over the headers: a header whose key is not an identifier, or whose own
+validation fails, makes the method answer nil at once (the table says which of the two errors are dropped) -/
+def encHeadersBad (T : Table) (o : Opts) (d : Doc) (vs : List Bool) : Bool :=
+  (d.kids.zip vs).any (fun pv => pv.1.1 = "headers" &&
+    ((hasSwallow T o d.attrs .encoding "identifier:headers" && !identOK (keyOf pv.1.2)) ||
+     (hasSwallow T o d.attrs .encoding "headers" && !pv.2)))
+
+def encodingOKCode (T : Table) (o : Opts) (d : Doc) (vs : List Bool) : Bool :=
+  if encHeadersBad T o d vs then true
+  else if !encodingStyleOK d.attrs then false
   else checkExt T o d
 
 def knownTypes : List String := ["boolean", "number", "integer", "string", "array", "object"]
@@ -541,8 +657,8 @@ def schemaOKCode (T : Table) (o : Opts) (d : Doc) : Bool :=
   let a := d.attrs
   if a.flag "readOnly" && a.flag "writeOnly" then false
   else if !((a.list "type").all (schemaTypeOKCode o a (d.hasKid "items"))) then false
-  else if hasCheck T o .schema "default" && !schemaDefaultsOK a then false
-  else if hasCheck T o .schema "example" && !schemaExamplesOK a then false
+  else if hasCheck T o a .schema "default" && !schemaDefaultsOK a then false
+  else if hasCheck T o a .schema "example" && !schemaExamplesOK a then false
   else checkExt T o d
 
 /-- `SecurityScheme.Validate` up to its final `validateExtensions` -/
@@ -589,18 +705,19 @@ def serverShapeOK (d : Doc) : Bool :=
   else true
 
 def serverOKCode (T : Table) (o : Opts) (d : Doc) : Bool :=
-  if !serverShapeOK d then false else checkExt T o d
+  if d.attrs.flag "null" then false          -- `Servers.Validate`: a null entry (6bd2b91)
+  else if !serverShapeOK d then false else checkExt T o d
 
 def componentPositions : List String :=
   ["schemas", "parameters", "requestBodies", "responses", "headers", "securitySchemes", "examples", "links", "callbacks"]
 
 def componentsOKCode (T : Table) (o : Opts) (d : Doc) : Bool :=
   componentPositions.all (fun p =>
-    if hasCheck T o .components ("identifier:" ++ p) then (d.kidsAt p).all (fun c => identOK (keyOf c)) else true) &&
+    if hasCheck T o d.attrs .components ("identifier:" ++ p) then (d.kidsAt p).all (fun c => identOK (keyOf c)) else true) &&
   checkExt T o d
 
 /-- the local checks of each `Validate` method, in the code's order -/
-def localOK (T : Table) (o : Opts) (d : Doc) : Bool :=
+def localOK (T : Table) (o : Opts) (d : Doc) (vs : List Bool) : Bool :=
   let a := d.attrs
   match d.kind with
   | .root => if a.str "openapi" = "" then false else if !d.hasKid "info" then false
@@ -627,20 +744,26 @@ def localOK (T : Table) (o : Opts) (d : Doc) : Bool :=
   | .responses => if a.num "count" == 0 then false else checkExt T o d
   | .response => if !a.flag "hasDescription" then false else checkExt T o d
   | .schema => schemaOKCode T o d
-  | .example => if a.flag "hasValue" && a.str "externalValue" != "" then false
-                else if !a.flag "hasValue" && a.str "externalValue" = "" then false else checkExt T o d
+  | .example => if hasVal a && a.str "externalValue" != "" then false
+                else if !hasVal a && a.str "externalValue" = "" then false else checkExt T o d
   | .link => if a.str "operationId" = "" && a.str "operationRef" = "" then false
              else if a.str "operationId" != "" && a.str "operationRef" != "" then false else checkExt T o d
   | .securityScheme => securitySchemeOKCode T o d
   | .oauthFlow => oauthFlowOKCode T o d
   | .server => serverOKCode T o d
-  | .serverVar => if a.str "default" = "" then false else checkExt T o d
+  | .serverVar => if a.flag "null" then false          -- `Server.Validate`: a null variable (6bd2b91)
+                  else if a.str "default" = "" then false else checkExt T o d
+  | .tag => if a.flag "null" then false else checkExt T o d          -- `Tags.Validate`: a null entry (6bd2b91)
   | .externalDocs => if a.str "url" = "" then false else checkExt T o d
   | .content | .securityReqs | .securityReq | .servers | .tags => true
-  | .contact | .pathItem | .callback | .oauthFlows | .tag | .encoding | .discriminator | .xml => checkExt T o d
+  | .encoding => encodingOKCode T o d vs
+  | .contact | .pathItem | .callback | .oauthFlows | .discriminator | .xml => checkExt T o d
 
 /-- model of `(*T).Validate` with the given options -/
 def validate (T : Table) (o : Opts) (d : Doc) : Bool := descend (localOK T o) (active T o) d
+
+/-- the local checks of a node, fed with the model's verdicts of its kids -/
+def localOKV (T : Table) (o : Opts) (d : Doc) : Bool := lokV (localOK T o) (active T o) d
 
 /-! ## Specification: rule violations per node, which option governs which rule, containment -/
 
@@ -690,6 +813,47 @@ def schemaTypeViols (a : Attrs) (hasItems : Bool) (ty : String) : List Viol :=
   when (ty = "string" && a.str "pattern" != "" && badPatterns.contains (a.str "pattern")) "badPattern" ++
   when (ty = "array" && !hasItems) "arrayNoItems"
 
+/-- Security Scheme Object (OpenAPI 3.0.3 §4.7.27): `type` is one of four; `name` and `in` are required for
+apiKey and apply to apiKey only; `scheme` is required for http (the library knows four schemes) and
+`bearerFormat` applies to http bearer only; `flows` is required for oauth2 and applies to it only;
+`openIdConnectUrl` is required for openIdConnect -/
+def securitySchemeViols (d : Doc) : List Viol :=
+  let a := d.attrs
+  let ty := a.str "type"
+  when (!(ty = "apiKey" || ty = "http" || ty = "oauth2" || ty = "openIdConnect")) "secType" ty ++
+  when (ty = "http" && !(["bearer", "basic", "negotiate", "digest"].contains (a.str "scheme"))) "secHttpScheme" ++
+  when (ty = "openIdConnect" && a.str "openIdConnectUrl" = "") "secOidcUrlMissing" ++
+  when (ty = "apiKey" && !(["query", "header", "cookie"].contains (a.str "in"))) "secApiKeyIn" ++
+  when (ty = "apiKey" && a.str "name" = "") "secApiKeyNameMissing" ++
+  when (ty != "apiKey" && a.str "in" != "") "secInMisplaced" ++
+  when (ty != "apiKey" && a.str "name" != "") "secNameMisplaced" ++
+  when (!(ty = "http" && a.str "scheme" = "bearer") && a.str "bearerFormat" != "") "secBearerFormatMisplaced" ++
+  when (ty = "oauth2" && !d.hasKid "flows") "secFlowsMissing" ++
+  when (ty != "oauth2" && d.hasKid "flows") "secFlowsMisplaced"
+
+/-- OAuth Flow Object (§4.7.29): `authorizationUrl` is required for (and applies only to) the implicit and
+authorizationCode flows, `tokenUrl` for password, clientCredentials and authorizationCode; `scopes` is required -/
+def oauthFlowViols (d : Doc) : List Viol :=
+  let a := d.attrs
+  let ft := a.str "flowType"
+  let needAuth := ft = "implicit" || ft = "authorizationCode"
+  let needTok := ft = "password" || ft = "clientCredentials" || ft = "authorizationCode"
+  when (needAuth && a.str "authorizationUrl" = "") "flowAuthorizationUrlMissing" ++
+  when (!needAuth && a.str "authorizationUrl" != "") "flowAuthorizationUrlMisplaced" ++
+  when (needTok && a.str "tokenUrl" = "") "flowTokenUrlMissing" ++
+  when (!needTok && a.str "tokenUrl" != "") "flowTokenUrlMisplaced" ++
+  when (!a.flag "hasScopes") "flowScopesMissing"
+
+/-- Server Object (§4.7.5): `url` is required; its braces pair up; every `{variable}` of the template is
+declared under `variables` and every declared variable occurs in the template -/
+def serverViols (d : Doc) : List Viol :=
+  let url := (d.attrs.str "url").toList
+  let vars := (d.kidsAt "variables").map keyOf
+  when url.isEmpty "serverUrlMissing" ++
+  when (countChar '{' url != countChar '}' url) "serverUrlBraces" ++
+  when (countChar '{' url != vars.length) "serverVariablesCount" ++
+  when (!(vars.all (fun n => isInfix (('{' :: n.toList) ++ ['}']) url))) "serverVariableUnused"
+
 /-- rule violations at a node (option-independent; `enabled` says which are in force) -/
 def violations (d : Doc) : List Viol :=
   let a := d.attrs
@@ -723,7 +887,9 @@ def violations (d : Doc) : List Viol :=
       when (a.str "name" != "") "headerName" ++ when (a.str "in" != "") "headerIn" ++
       when (!(a.str "style" = "" || a.str "style" = "simple")) "badStyle" ++
       when (schemaXorContentBad a) "schemaXorContent" ++
-      when (a.num "content" > 1) "contentMany" ++ exampleViols d ++ extraViols a
+      when (a.num "content" > 1) "contentMany" ++
+      when (a.flag "hasSchema" && a.flag "hasExample" && a.flag "hasExamples") "exampleAndExamples" ++
+      exampleViols d ++ extraViols a
   | .mediaType =>
       when (a.flag "hasSchema" && a.flag "hasExample" && a.flag "hasExamples") "exampleAndExamples" ++
       exampleViols d ++ extraViols a
@@ -736,30 +902,35 @@ def violations (d : Doc) : List Viol :=
       when (!schemaDefaultsOK a) "defaultMismatch" ++
       when (!schemaExamplesOK a) "exampleMismatch" ++
       extraViols a
-  | .example => when (a.flag "hasValue" && a.str "externalValue" != "") "valueAndExternal" ++
-      when (!a.flag "hasValue" && a.str "externalValue" = "") "noValue" ++ extraViols a
+  | .example => when (hasVal a && a.str "externalValue" != "") "valueAndExternal" ++
+      when (!hasVal a && a.str "externalValue" = "") "noValue" ++ extraViols a
   | .link => when (a.str "operationId" = "" && a.str "operationRef" = "") "linkNoTarget" ++
       when (a.str "operationId" != "" && a.str "operationRef" != "") "linkBothTargets" ++ extraViols a
-  | .securityScheme => when (!securitySchemeShapeOK d) "illFormedSecurityScheme" ++ extraViols a
-  | .oauthFlow => when (!oauthFlowShapeOK d) "illFormedFlow" ++ extraViols a
-  | .server => when (!serverShapeOK d) "illFormedServer" ++ extraViols a
-  | .serverVar => when (a.str "default" = "") "missingDefault" ++ extraViols a
+  | .securityScheme => securitySchemeViols d ++ extraViols a
+  | .oauthFlow => oauthFlowViols d ++ extraViols a
+  | .server => when (a.flag "null") "nullEntry" ++ serverViols d ++ extraViols a
+  | .serverVar => when (a.flag "null") "nullEntry" ++ when (a.str "default" = "") "missingDefault" ++ extraViols a
+  | .tag => when (a.flag "null") "nullEntry" ++ extraViols a
   | .externalDocs => when (a.str "url" = "") "missingUrl" ++ extraViols a
   | .content | .securityReqs | .securityReq | .servers | .tags => []
-  | .contact | .pathItem | .callback | .oauthFlows | .tag | .encoding | .discriminator | .xml => extraViols a
+  | .encoding => when (!encodingStyleOK a) "badStyle" ++ extraViols a
+  | .contact | .pathItem | .callback | .oauthFlows | .discriminator | .xml => extraViols a
 
 /-- the node satisfies every rule that is in force -/
 def rulesOK (o : Opts) (d : Doc) : Bool := (violations d).all (fun v => !enabled o v)
 
 /-- containment edges named by the property: "reachable through components, path items, operations,
 parameters, request bodies, responses, headers, media types and schemas" (plus security schemes and
-servers, whose well-formedness the property lists) -/
+servers, whose well-formedness the property lists: "an ill-formed security scheme or server is rejected, at
+whichever place reachable through … path items, operations …" — hence the `servers` of a path item and of an
+operation) -/
 def specEdges : List (Kind × String) := [
   (.root, "components"), (.root, "paths"), (.root, "info"), (.root, "servers"),
   (.components, "schemas"), (.components, "parameters"), (.components, "requestBodies"),
   (.components, "responses"), (.components, "headers"), (.components, "securitySchemes"),
   (.paths, "pathItems"), (.pathItem, "operations"), (.pathItem, "parameters"),
   (.operation, "parameters"), (.operation, "requestBody"), (.operation, "responses"),
+  (.pathItem, "servers"), (.operation, "servers"),
   (.parameters, "items"), (.parameterRef, "value"), (.parameter, "schema"), (.parameter, "content"),
   (.requestBodyRef, "value"), (.requestBody, "content"),
   (.responses, "responses"), (.responseRef, "value"), (.response, "content"), (.response, "headers"),
@@ -776,9 +947,9 @@ def specAct : Act := fun k _ pos => specEdges.contains (k, pos)
 def allAct : Act := fun _ _ _ => true
 
 /-- conforming: every node of the document satisfies every rule in force -/
-def conformingB (o : Opts) (d : Doc) : Bool := descend (rulesOK o) allAct d
+def conformingB (o : Opts) (d : Doc) : Bool := descend (plain (rulesOK o)) allAct d
 /-- no violation at a place the property reaches -/
-def specCleanB (o : Opts) (d : Doc) : Bool := descend (rulesOK o) specAct d
+def specCleanB (o : Opts) (d : Doc) : Bool := descend (plain (rulesOK o)) specAct d
 
 inductive SpecVerdict | accept | reject | unspecified
   deriving DecidableEq, Repr
@@ -798,44 +969,36 @@ def excl7Node (d : Doc) : Bool :=
     let common := pathParamNames (pi.kidsAt "parameters")
     (pi.kidsAt "operations").any (fun op => templateOKCode vars common op && !templateOKSpec vars common op))
 
-/-- #28 (a): a non-extension extra field inside a header object (`Header.Validate` has no
-`validateExtensions` call) -/
-def exclHeaderNode (o : Opts) (d : Doc) : Bool := d.kind = .header && !(extKeysOK o d.attrs.exts)
-
-/-- the example / examples of a header object violate its schema (`Header.Validate` never looks at them,
-unlike `Parameter.Validate` and `MediaType.Validate`) -/
-def exclHeaderExampleNode (o : Opts) (d : Doc) : Bool :=
-  d.kind = .header && d.attrs.flag "hasSchema" && !o.exDisabled && !(exampleOK d && examplesGivenOK d)
-
 /-- sibling keys next to a `$ref` *inside* a schema (`oneOf`, `properties`, `items`, …): `Schema.validate`
 follows `ref.Value` directly and never runs the reference wrapper's own check -/
 def exclInnerNode (o : Opts) (d : Doc) : Bool := d.kind = .innerSchemaRef && !refSibsOK o d.attrs
 
-/-- an example object without a `value` (it gives `externalValue`) under a parameter / media type whose
-schema does not admit null: the code validates the absent value, `nil`, against the schema -/
-def exclExternalNode (o : Opts) (d : Doc) : Bool :=
-  (d.kind = .parameter || d.kind = .mediaType) && d.attrs.flag "hasSchema" && !o.exDisabled &&
-  !examplesOK d && examplesGivenOK d
+/-- an encoding object one of whose headers fails (`Encoding.Validate` then answers nil: neither the header's
+violation nor the encoding object's own style / extra-field violations are reported) -/
+def exclEncNode (T : Table) (o : Opts) (d : Doc) : Bool :=
+  d.kind = .encoding && encHeadersBad T o d (verdicts (localOK T o) (active T o) d.kids)
 
 /-- containment edges of the property for which the table has no unconditional edge -/
 def uncovered (T : Table) : List (Kind × String) :=
   specEdges.filter (fun e => !((rowsFor T.edges e.1 e.2).contains []))
 
-/-- the three containment edges the code is known not to follow (#28 (b): `encoding`, `xml`,
-`discriminator` objects are never validated) -/
-def knownUncovered : List (Kind × String) := [(.mediaType, "encoding"), (.schema, "xml"), (.schema, "discriminator")]
+/-- the containment edges along which the code is known not to report violations: the `servers` of a path item
+and of an operation (never validated), the headers of an encoding object (errors dropped), and #28: `xml`,
+`discriminator` objects are never validated -/
+def knownUncovered : List (Kind × String) :=
+  [(.pathItem, "servers"), (.operation, "servers"), (.encoding, "headers"), (.schema, "xml"), (.schema, "discriminator")]
 
 /-- a violation sits below a containment edge in `unc` -/
 def exclBelow (unc : List (Kind × String)) (o : Opts) (d : Doc) : Bool :=
   d.kids.any (fun pc => unc.contains (d.kind, pc.1) && !specCleanB o pc.2)
 
 /-- local deviations: at such a node the code's local checks are weaker than the rules -/
-def exclLocal (o : Opts) (d : Doc) : Bool :=
-  excl7Node d || exclHeaderNode o d || exclInnerNode o d || exclExternalNode o d || exclHeaderExampleNode o d
+def exclLocal (T : Table) (o : Opts) (d : Doc) : Bool :=
+  excl7Node d || exclInnerNode o d || exclEncNode T o d
 
-def exclNode (unc : List (Kind × String)) (o : Opts) (d : Doc) : Bool := exclLocal o d || exclBelow unc o d
+def exclNode (T : Table) (unc : List (Kind × String)) (o : Opts) (d : Doc) : Bool := exclLocal T o d || exclBelow unc o d
 
 /-- some node of the document satisfies `f` -/
-def anyNode (f : Doc → Bool) (d : Doc) : Bool := !descend (fun n => !f n) allAct d
+def anyNode (f : Doc → Bool) (d : Doc) : Bool := !descend (plain (fun n => !f n)) allAct d
 
 end KinModel.DocValidate
